@@ -2,7 +2,7 @@
 From Coq Require Import List ZArith NArith Bool.
 Import ListNotations.
 From GS Require Import Num EventLoop Kernel Sim.
-From GS.Proofs Require Import Aux EventLoopP KernelP KernelP2.
+From GS.Proofs Require Import Aux EventLoopP KernelP KernelP2 StreamP.
 
 (** Driving: if the blocking call terminates, then stepping manually reaches the same state and
     the same trace after some number n of steps (True, ..., True, False), and any number of
@@ -29,5 +29,30 @@ Theorem C06_trace_is_a_function_of_the_scenario :
     k_run A (sim_hooks A cfg2 react2) c2 fuel (fst (sim_start A cfg2 ps0)).
 Proof. intros; subst; reflexivity. Qed.
 
+(** Reproducibility with identical seeding: a run is a function of the scenario and of the
+    random draws it actually consumes.  If two oracle streams (two states of the random
+    generator) agree on the first K draws and the run consumes at most K draws, then the final
+    state, the complete trace (every callback with node, kind, time, payload; every request and
+    its outcome) and the termination status are identical — for every protocol program, every
+    configuration, every bounds. *)
+Theorem C06_same_draws_same_run :
+  forall (F : Type) (A : ArithOps F) (PS : Type) (cfg : scfg F) (st2 : list F)
+         (react : nat -> PS -> F -> cb F -> PS * list (action F)) (c : kcfg F) (fuel : nat)
+         (s : kstate F (payload F) (sstate F PS)) (K : nat),
+    agree A cfg st2 K ->
+    cur (fst (fst (k_run A (sim_hooks A cfg react) c fuel s))) <= K ->
+    k_run A (sim_hooks A (cfg2 cfg st2) react) c fuel s = k_run A (sim_hooks A cfg react) c fuel s.
+Proof. intros. apply k_run_stream; assumption. Qed.
+
+(** the generator is consulted only by transmissions, one draw per attempted copy, at the
+    cursor: draws are consumed in a fixed order determined by the run itself *)
+Theorem C06_draws_are_consumed_in_order :
+  forall (F : Type) (A : ArithOps F) (PS : Type) (cfg : scfg F)
+         (react : nat -> PS -> F -> cb F -> PS * list (action F)) (c : kcfg F) (s : kstate F (payload F) (sstate F PS)),
+    cur s <= cur (fst (fst (k_step A (sim_hooks A cfg react) c s))).
+Proof. intros. apply k_step_cur. Qed.
+
 Print Assumptions C06_blocking_equals_stepping.
 Print Assumptions C06_trace_is_a_function_of_the_scenario.
+Print Assumptions C06_same_draws_same_run.
+Print Assumptions C06_draws_are_consumed_in_order.
